@@ -272,10 +272,16 @@ def harness_copy():
     return d
 
 
+def want_race(race):
+    """VERIF_RACE=1 (set by the C20 check) turns every driver build into a -race build."""
+    return bool(race) or os.environ.get("VERIF_RACE") == "1"
+
+
 def go_build(pkg, out_name, tags="verif", race=False, go=GO_DEFAULT, timeout=900, linkflag=True):
     """Build harness command ./cmd/<pkg> against /repo's working tree."""
     d = harness_copy()
-    out = os.path.join(scratch("bin"), out_name)
+    race = want_race(race)
+    out = os.path.join(scratch("bin"), out_name + ("-r" if race else ""))
     cmd = [go, "build", "-tags", tags, "-o", out]
     if linkflag:
         cmd.append(LINKFLAGS)
@@ -293,6 +299,7 @@ def go_test_inpkg(pkg_rel, files, run_regex, env=None, tags="verif", race=False,
     """Run `go test` inside /repo/<pkg_rel> with harness files injected through
     -overlay (nothing is written into /repo).  files: list of paths under
     harness/inpkg/<...>; they appear in the package as <basename>."""
+    race = want_race(race)
     ov = {"Replace": {}}
     for f in files:
         ov["Replace"][os.path.join(REPO, pkg_rel, os.path.basename(f))] = f
@@ -337,7 +344,7 @@ class Check:
         self.known_seen = {}   # signature -> what
         self.inconclusive = []
         self.known = [k for k in load_known() if k.get("property") == pid]
-        self.replay_dir = os.path.join(VERIF, "replays", pid)
+        self.replay_dir = os.path.join(os.environ.get("VERIF_REPLAY_DIR") or os.path.join(VERIF, "replays"), pid)
         self._tlc_cmds = []
 
     # -- bookkeeping -------------------------------------------------------
@@ -388,8 +395,9 @@ class Check:
               "wall_s": round(time.time() - self.t0, 2), "violations": len(self.violations)}
         if self.inconclusive:
             ev["coverage"]["inconclusive"] = self.inconclusive
-        os.makedirs(os.path.join(VERIF, "evidence"), exist_ok=True)
-        with open(os.path.join(VERIF, "evidence", self.pid + ".json"), "w") as fh:
+        evdir = os.environ.get("VERIF_EVIDENCE_DIR") or os.path.join(VERIF, "evidence")
+        os.makedirs(evdir, exist_ok=True)
+        with open(os.path.join(evdir, self.pid + ".json"), "w") as fh:
             json.dump(ev, fh, indent=1, default=str)
             fh.write("\n")
         if self.violations:
@@ -509,6 +517,7 @@ def go_test_compile_inpkg(pkg_rel, files, out_name, tags="verif", race=False, go
     ov = {"Replace": {}}
     for f in files:
         ov["Replace"][os.path.join(REPO, pkg_rel, os.path.basename(f))] = f
+    race = want_race(race)
     d = scratch("overlay")
     ovf = os.path.join(d, "overlay-c-%s.json" % re.sub(r"\W", "_", pkg_rel + out_name))
     with open(ovf, "w") as fh:
